@@ -273,11 +273,7 @@ class EnergyRunBoundaries(EnergyHistories):
                     sim.atoms.positions = new
                     if ev["cell"] is not None:
                         sim.atoms.set_cell(np.diag(np.array(ev["cell"], float)), scale_atoms=False)
-                    import warnings
-
-                    with warnings.catch_warnings():
-                        warnings.simplefilter("ignore")
-                        sim.mc.validate_simulation()
+                    machine.start_run(sim.mc)
                     c = sim.mc.context
                     n_probe = sim.calc.nevals
                     rep = sim.atoms.get_potential_energy()
